@@ -4,7 +4,7 @@ from evalutil import *
 
 ID = "C05"
 LEVEL = "proof"
-MODULES = ["H3Proofs.Props.C05", "H3Proofs.Props.C05Neighbor", "H3Proofs.Props.C05Bfs", "H3Proofs.Props.C05Symm", "H3Proofs.Props.C05Array", "H3Proofs.Props.C05Mode", "H3Proofs.Props.C05Valid", "H3Proofs.Props.C05Valid2", "H3Proofs.Props.C05Pent", "H3Proofs.Props.C05Res1a", "H3Proofs.Props.C05Res1b"]
+MODULES = ["H3Proofs.Props.C05", "H3Proofs.Props.C05Neighbor", "H3Proofs.Props.C05Bfs", "H3Proofs.Props.C05Symm", "H3Proofs.Props.C05Array", "H3Proofs.Props.C05Mode", "H3Proofs.Props.C05Valid", "H3Proofs.Props.C05Valid2", "H3Proofs.Props.C05Pent", "H3Proofs.Props.C05Res1a", "H3Proofs.Props.C05Res1b", "H3Proofs.Props.C05Ring", "H3Proofs.Props.C05All"]
 THEOREMS = "auto"
 ASSUMPTIONS = ["hand-written model of h3NeighborRotations, _gridDiskDistancesInternal (array-faithful), the unsafe "
                "ring walks, gridRingUnsafe and areNeighborCells, tied to the code by exact correspondence (slot "
@@ -175,7 +175,7 @@ def evaluate(ctx, rng, tier, focus, budget, broken):
                 viol_.append(viol("gridRingUnsafe succeeded with something else than the ring at distance k",
                                   ops[5 * i + 3], f"{len(exp_ring)} cells", a_ring[:200],
                                   key="ringUnsafe-encloses-pentagons" if enclosed else None))
-        if len(viol_) >= 20:
+        if len([v_ for v_ in viol_ if v_.get("key") != "ringUnsafe-encloses-pentagons"]) >= 20:
             break
     # 4. gridDisksUnsafe: on success, segment i is exactly the disk of cell i in ring order; batches that put a
     #    cell whose disk meets a pentagon before / between / after cells with pentagon-free disks
@@ -212,6 +212,8 @@ def evaluate(ctx, rng, tier, focus, budget, broken):
                 break
     ops = ops + bops
     out = out + bout
+    viol_ = [v for v in viol_ if v.get("key") != "ringUnsafe-encloses-pentagons"] + \
+            [v for v in viol_ if v.get("key") == "ringUnsafe-encloses-pentagons"]
     return {"evaluations": len(ops) + len(nb.cache), "violations": viol_[:20], "distinct": ops,
             "coverage": {"origins": len(origins), "pentagons": sum(1 for h in origins if gen.is_pentagon(h)),
                          "disks_vs_bfs": ndisk, "disksunsafe_batches_succeeded": nbatch, "disksunsafe_batches": len(bops), "neighbour_lists": len(nb.cache),
